@@ -74,6 +74,18 @@ CHECKS = {
              "plus byte-exact fixpoint; the independent reader/writer vf/idb.py is part of the trusted base.",
         technique="explicit-state search over load histories + exhaustive prefix enumeration on the real library",
     ),
+    "C13": dict(
+        level="model_checking",
+        text="Explicit-state search over load/query histories on the real library (one process per history, state = canonical "
+             "dump): library families built by real interrogate runs (referenced/forward-declared/identical/conflicting/"
+             "forced/global-vs-local types, every record kind), every permutation of the loads x every placement of up to two "
+             "queries, both request kinds; each reached state is compared up to index renaming with a reference model "
+             "(disjoint union with equal-true-name types identified), with all other histories over the same set "
+             "(differential), for contiguous fresh index ranges, referential closure and lookups seeing later loads.",
+        design="4/C13",
+        note="Where several candidates are equally eligible (both or neither fully defined) any winner is accepted.",
+        technique="explicit-state search over operation histories on the real library, reference-model + differential oracle",
+    ),
     "C14": dict(
         level="model_checking",
         text="Deviation-bounded enumeration of environment answers (allocator address order asc/desc and every permutation "
@@ -85,6 +97,18 @@ CHECKS = {
         note="Seams are LD_PRELOAD interposers (malloc family, clock) and setarch -R; no non-C locale exists in the image "
              "(tools never call setlocale, checked with nm at run time).",
         technique="deviation-bounded exhaustive enumeration of environment answers on the real binaries",
+    ),
+    "C16": dict(
+        level="model_checking",
+        text="Every directed graph on k=3 (thorough k=4: all 4096) libraries, cyclic or not, realised by real interrogate "
+             "databases (inheritance and typedef edges) x every permutation of the .in files on the interrogate_module "
+             "command line; the generated module file is parsed (Py3 and Py2 branches): each library exactly once in "
+             "RegisterTypes/LibraryDef/BuildInstants in the same order, bases first across SCCs, cycles reported and broken "
+             "only on reported cycles, termination; every truncation offset / missing / unreadable database gives non-zero "
+             "exit and no output file.",
+        design="4/C16",
+        note="The -c mode never reads the databases (antecedent false, unjudged); module import is not built here (C03 does).",
+        technique="exhaustive enumeration of dependency graphs x argument orders on the real tool",
     ),
     "C17": dict(
         level="model_checking",
